@@ -1,7 +1,7 @@
 //! C16 — indexing a valid chain never fails.
 //!
 //! A case is a whole regtest chain:
-//!   pre nblocks mid { subsidy ntx { tx }* }*
+//!   iso pre nblocks mid { subsidy ntx { tx }* }*     (iso = 1: index this chain in a child process)
 //!   tx:  nin { txnum vout nwit { len bytes }* }*  nout { value len script-bytes }*
 //! `pre` empty blocks are mined first; `txnum` numbers all transactions of the chain in block
 //! order (genesis coinbase = 0, every coinbase counts).  The chain is installed in an in-process
@@ -58,6 +58,8 @@ pub struct BlockS {
 }
 #[derive(Clone)]
 pub struct ChainS {
+  /// run this chain in a child process (it carries payloads whose failure mode is an abort)
+  pub iso: bool,
   pub pre: u64,
   pub mid: usize,
   pub blocks: Vec<BlockS>,
@@ -65,7 +67,7 @@ pub struct ChainS {
 
 impl ChainS {
   pub fn line(&self) -> Line {
-    let mut l = L::new().p(self.pre).p(self.blocks.len()).p(self.mid);
+    let mut l = L::new().p(self.iso).p(self.pre).p(self.blocks.len()).p(self.mid);
     for b in &self.blocks {
       l.push(b.subsidy);
       l.push(b.txs.len());
@@ -91,6 +93,7 @@ impl ChainS {
 
   pub fn parse(case: &Line) -> ChainS {
     let mut c = Cur::new(case);
+    let iso = c.bool();
     let pre = c.u64();
     let nb = c.usize();
     let mid = c.usize();
@@ -122,7 +125,7 @@ impl ChainS {
       }
       blocks.push(BlockS { subsidy, txs });
     }
-    ChainS { pre, mid, blocks }
+    ChainS { iso, pre, mid, blocks }
   }
 }
 
@@ -233,6 +236,9 @@ struct Gen<'a> {
   /// named-rune commitments waiting for confirmations: (txnum, vout, rune)
   commits: Vec<(usize, u32, Rune)>,
   feats: BTreeMap<&'static str, u64>,
+  /// percentage of inscriptions that carry an over-declared-length properties field
+  over_bias: u64,
+  over_next: usize,
 }
 
 fn p2wpkh() -> Vec<u8> {
@@ -275,6 +281,19 @@ impl<'a> Gen<'a> {
 
   fn properties_field(&mut self) -> (Option<Vec<u8>>, Option<Vec<u8>>) {
     let br = Some(b"br".to_vec());
+    if self.rng.below(100) < self.over_bias {
+      // a container or string declaring a length far beyond the input (plain or inside brotli)
+      // dense chains walk through the whole list (starting at a random place), plain first, then compressed
+      let all = c28::overdeclared();
+      if self.over_next == 0 {
+        self.over_next = 1 + self.rng.below(2 * all.len() as u64) as usize;
+      }
+      let k = self.over_next;
+      self.over_next += 7; // 7 is coprime to the list length: every entry is reached
+      let b = all[k % all.len()].clone();
+      self.feat("overdeclared");
+      return if (k / all.len()) % 2 == 1 { (Some(c28::brotli_compress(&b)), br) } else { (Some(b), None) };
+    }
     match self.rng.below(9) {
       0 => (Some(c28::malformed(self.rng)), None),
       1 => {
@@ -340,7 +359,7 @@ impl<'a> Gen<'a> {
     if mask & (1 << 4) != 0 {
       i.metadata = Some(if self.rng.chance(1, 2) { c28::malformed(self.rng) } else { vec![0xa1, 0x61, 0x61, 0x01] });
     }
-    if mask & (1 << 7) != 0 || self.rng.chance(1, 5) {
+    if mask & (1 << 7) != 0 || self.rng.chance(1, 5) || self.rng.below(100) < self.over_bias {
       let (p, e) = self.properties_field();
       i.properties = p;
       i.property_encoding = e;
@@ -363,10 +382,11 @@ impl<'a> Gen<'a> {
       self.feat("commit-reveal");
     }
     match self.rng.below(10) {
-      0 if commit.is_none() => vec![],
-      1 | 2 if commit.is_none() => c27::rand_witness(self.rng),
+      0 if commit.is_none() && self.over_bias == 0 => vec![],
+      1 | 2 if commit.is_none() && self.over_bias == 0 => c27::rand_witness(self.rng),
       _ => {
         let k = match self.rng.below(10) {
+          _ if self.over_bias > 0 => self.rng.range(4, 10),
           0 if commit.is_some() => 0,
           0..=6 => 1,
           7 | 8 => self.rng.range(2, 4),
@@ -725,10 +745,10 @@ impl<'a> Gen<'a> {
   }
 }
 
-fn gen_chain(rng: &mut Rng, long: bool) -> (ChainS, String) {
+fn gen_chain(rng: &mut Rng, long: bool, over_bias: u64) -> (ChainS, String) {
   let pre = if long { rng.range(101, 112) } else { rng.below(3) };
   let node = Node::new(pre);
-  let mut g = Gen { rng, node, live: Vec::new(), inscriptions: Vec::new(), runes: Vec::new(), commits: Vec::new(), feats: BTreeMap::new() };
+  let mut g = Gen { rng, node, live: Vec::new(), inscriptions: Vec::new(), runes: Vec::new(), commits: Vec::new(), feats: BTreeMap::new(), over_bias, over_next: 0 };
   // coinbases of the empty blocks are spendable
   for n in 1..=pre as usize {
     let (_, outs, h, _) = &g.node.txs[n];
@@ -743,14 +763,16 @@ fn gen_chain(rng: &mut Rng, long: bool) -> (ChainS, String) {
   let mid = g.rng.below(nblocks as u64) as usize;
   let mut f: Vec<String> = g.feats.keys().map(|k| k.to_string()).collect();
   f.sort();
-  (ChainS { pre, mid, blocks }, f.join("+"))
+  let iso = g.feats.contains_key("overdeclared");
+  (ChainS { iso, pre, mid, blocks }, f.join("+"))
 }
 
 pub fn gen(rng: &mut Rng, tier: &str) -> Vec<Line> {
   let n = if tier == "thorough" { 400 } else { 48 };
   let mut v = Vec::new();
   for j in 0..n {
-    let (c, _) = gen_chain(rng, j % 6 == 5);
+    // the first chains of every run are dense in over-declared CBOR lengths, the others carry a few
+    let (c, _) = gen_chain(rng, j % 6 == 5, if j < 5 { 90 } else { 0 });
     v.push(c.line());
   }
   v
@@ -774,7 +796,47 @@ fn update(index: &ord::Index) -> i32 {
   }
 }
 
+/// Chains flagged `iso` run in a child process: an allocation failure inside the indexer aborts
+/// the process instead of unwinding and must still be attributed to its case.
 pub fn run(case: &Line) -> Outcome {
+  if std::env::var_os("HX_CHILD").is_some() || case.first().map_or(true, |z| z.mag == 0) {
+    return run_here(case);
+  }
+  let dir = tmp();
+  let file = dir.path().join("case.txt");
+  std::fs::write(&file, fmt_line(case) + "\n").unwrap();
+  let out = dir.path().join("out");
+  let status = std::process::Command::new(std::env::current_exe().unwrap())
+    .args(["C16", "replay", file.to_str().unwrap(), out.to_str().unwrap()])
+    .env("HX_CHILD", "1")
+    .stdout(std::process::Stdio::null())
+    .stderr(std::process::Stdio::null())
+    .status();
+  let read = |n: &str| std::fs::read_to_string(out.join(n)).unwrap_or_default();
+  match status {
+    Ok(st) if st.success() => {
+      let obs = parse_line(read("impl.txt").trim());
+      let verdict = read("oracle.txt");
+      let oracle = if verdict.trim() == "ok" { Ok(()) } else { Err(verdict.trim().trim_start_matches("FAIL ").to_string()) };
+      let meta = read("meta.json");
+      let cat = meta.split("\"categories\": {\"").nth(1).and_then(|r| r.split('"').next()).unwrap_or("chain/unknown").to_string();
+      Outcome { obs, oracle, cat }
+    }
+    other => {
+      let mut obs = L::new();
+      for _ in 0..6 {
+        obs.push(Z { neg: true, mag: 2 });
+      }
+      let why = match other {
+        Ok(st) => format!("{st}"),
+        Err(e) => format!("spawn failed: {e}"),
+      };
+      Outcome { obs: obs.done(), oracle: Err(format!("the indexing process died ({why}): abort / allocation failure / stack overflow while indexing this chain")), cat: "chain/aborted".into() }
+    }
+  }
+}
+
+fn run_here(case: &Line) -> Outcome {
   let chain = ChainS::parse(case);
   let all_ok = || L::new().p(0u8).p(0u8).p(0u8).p(0u8).p(0u8).p(0u8).done();
   let t0 = std::time::Instant::now();
